@@ -318,3 +318,20 @@ func TestStatementVariants(t *testing.T) {
 		}
 	}
 }
+
+func TestSelectDistinct(t *testing.T) {
+	db := NewDB()
+	if err := db.ExecScript("CREATE TABLE l (a integer NOT NULL, b text);"); err != nil {
+		t.Fatal(err)
+	}
+	for i := 0; i < 2; i++ {
+		if _, _, err := db.Exec("INSERT INTO l (a, b) VALUES ($1, $2)", []any{int64(1), "x"}); err != nil {
+			t.Fatal(err)
+		}
+	}
+	all, _, _ := db.Exec("SELECT a, b FROM l WHERE a = $1", []any{int64(1)})
+	one, _, err := db.Exec("SELECT DISTINCT a, b FROM l WHERE a = $1", []any{int64(1)})
+	if err != nil || len(all.Rows) != 2 || len(one.Rows) != 1 {
+		t.Errorf("all=%d distinct=%d err=%v", len(all.Rows), len(one.Rows), err)
+	}
+}
